@@ -4,7 +4,7 @@ Symbolic selectors: model ordinal (every model and token reachable from the root
 spacing as up to 3 units from {SP, TAB, LF, CRLF}.  Oracle: an index walk over a snapshot of the token list
 (independent of store navigation), character-level comparison of the printed text, identity window.
 """
-from symx.env import NoTracing, check, Fail, NATIVE, pick, R
+from symx.env import NoTracing, check, Fail, NATIVE, pick, R, set_load_factor
 from symx import docenv
 from symx.docenv import text_of, Snapshot
 from autobean_refactor import models
@@ -52,17 +52,24 @@ def blanks_removed(s):
     return ''.join(ch for ch in s if ch not in ' \t\r\n')
 
 
-def make_spacing(tname, side, klen, facet, twin=False):
+def make_spacing(tname, side, klen, facet, twin=False, lf=None):
     text = TEMPLATES[tname]
     with NoTracing():
         n_models = len(spacing_models(docenv.PARSER.parse(text, M.File)))
+    blo, bhi = docenv.block_bounds(lf) if lf else (0, 0)
 
-    def cell(mi: int, u0: int, u1: int, u2: int) -> None:
+    def cell(mi: int, u0: int, u1: int, u2: int, bp: int = 0, bs: int = 0) -> None:
         assert 0 <= mi < n_models and 0 <= u0 <= 3 and 0 <= u1 <= 3 and 0 <= u2 <= 3
+        assert (bp == 0 and bs == 0) if lf is None else (0 <= bp < len(docenv.BLOCK_PATTERNS) and 0 <= bs <= bhi - blo)
         mi = pick(mi, 0, n_models - 1)
         us = [pick(u, 0, 3) for u in (u0, u1, u2)[:klen]]
+        if lf is not None:
+            bp, bs = pick(bp, 0, len(docenv.BLOCK_PATTERNS) - 1), pick(bs, 0, bhi - blo)
         with NoTracing():
+            set_load_factor(1000)
             f = docenv.PARSER.parse(text, M.File)
+            if lf is not None:      # the store is re-partitioned into a symbolically chosen legal block layout
+                docenv.reblock(f.token_store, lf, bp, bs)
             ms = spacing_models(f)
             path, m = ms[mi]
             new = ''.join(UNITS[u] for u in us)
@@ -126,7 +133,7 @@ def make_spacing(tname, side, klen, facet, twin=False):
                 back = m.spacing_before if side == 'before' else m.spacing_after
                 check(back == new, what, 'reads back as', R(back))
 
-    return 'spacing_%s_%s_%s_k%d%s' % (facet, tname, side, klen, '_twin' if twin else ''), cell
+    return 'spacing_%s_%s_%s_k%d%s%s' % (facet, tname, side, klen, ('_lf%d' % lf) if lf else '', '_twin' if twin else ''), cell
 
 
 CELLS = {}
@@ -147,12 +154,22 @@ for _t in TEMPLATES:
                  'template %s: every model/token x spacing_%s x every string of %d units from {SP,TAB,LF,CRLF}' % (_t, _side, _k), cost=4 ** _k * 10)
             _reg(make_spacing(_t, _side, _k, 'tree'), {'C05': Q if _k == 1 else T}, 900, 'spacing/tree',
                  'template %s: tree invariant after spacing_%s = string of %d units' % (_t, _side, _k), cost=4 ** _k * 10)
+for _t in ('two_dirs', 'txn', 'trailing_blanks', 'custom'):
+    for _side in ('before', 'after'):
+        for _k in (0, 1):
+            for _lf in (2, 4, 5):
+                quick = _t in ('two_dirs', 'txn') and _k == 0
+                for _facet, _prop in (('spacing', 'C17'), ('tree', 'C05')):
+                    _reg(make_spacing(_t, _side, _k, _facet, lf=_lf), {_prop: Q if (quick and (_facet == 'spacing' or _lf == 4)) else T}, 900, 'spacing/blk',
+                         'template %s: every model/token x spacing_%s = string of %d units, on a store re-partitioned for load factor %d (symbolic block pattern and first block size)'
+                         % (_t, _side, _k, _lf), cost=300)
 _reg(make_spacing('txn', 'before', 1, 'spacing', twin=True), {'C17': Q}, 120, 'spacing', 'vacuity twin', twin=True, cost=1)
 _reg(make_spacing('txn', 'after', 1, 'tree', twin=True), {'C05': Q}, 120, 'spacing/tree', 'vacuity twin', twin=True, cost=1)
 
 FILES = ['autobean_refactor/models/internal/spacing_accessors.py', 'autobean_refactor/models/spacing.py', 'autobean_refactor/token_store.py']
 ENCODES = ['autobean_refactor/models/internal/spacing_accessors.py: SpacingAccessorsMixin.raw_spacing_before/after, spacing_before/after (get and set), _find_spacing, _text_to_tokens']
-STUBS = ['model ordinal, side and spacing units are symbolic selectors enumerated exhaustively by the solver; the accessor calls run natively on the concrete document of each path']
+STUBS = ['blk cells: the parsed store is re-partitioned (docenv.reblock) into a legal block layout chosen by symbolic selectors',
+         'model ordinal, side and spacing units are symbolic selectors enumerated exhaustively by the solver; the accessor calls run natively on the concrete document of each path']
 OUTSIDE = ['templates other than the 6 listed; spacing strings longer than 3 units; lone CR (outside the property\'s domain "LF and CRLF")']
 
 
